@@ -20,7 +20,7 @@ CHECKS = {
                      "evaluation on independently parsed knots; the interval structure is covered completely, the continuum inside an interval "
                      "is represented by up to 7 points (a cubic has 4 degrees of freedom). Every knot of the log-space cross-section tables is also queried at arguments whose "
                      "transform, computed as the library computes it, IS the knot bit for bit (220 000 exact hits, incl. the duplicated abscissae at absorption edges); for "
-                     "tables kept in the argument's own space a value is due at the first and at the last knot themselves.",
+                     "tables kept in the argument's own space a value is due at the first and at the last knot themselves; twelve positive arguments from 5e-324 to 1e-9 probe the region below every table.",
                 note="Trusts the Python data-file readers and numpy; the 1e-7 upper-end band is a don't-care zone and at a duplicated abscissa either neighbouring value or their mean is accepted, as "
                      "documented in DESIGN.md; configuration K depends on tools/kissel_regen.py."),
     "C03": dict(level="exploration", engine="ENUM", ref="4/C03",
@@ -92,7 +92,7 @@ CHECKS = {
                 note="Differential oracle (C07, C01, C02, C05 decide compositions and elemental values); refractive index constants derived from header macros, rel. 1e-6."),
     "C13": dict(level="exploration", engine="ENUM", ref="4/C13",
                 technique="exhaustive enumeration of crystals x Miller cube x energies x Debye/angle/flag grids against metric-tensor, Bragg and explicit structure-factor references",
-                text="All 38 built-in crystals, 20/60 generated (triclinic) cells and 4/8 cells with 22 different elements in ascending, descending and shuffled order over the complete Miller cube, energy, Debye-factor, relative-angle and flag "
+                text="All 38 built-in crystals, 20/60 generated (triclinic) cells and 4/8 cells with 22 different elements in ascending, descending and shuffled order over the complete Miller cube, energy, Debye-factor, relative-angle and flag (all 12 valid combinations) "
                      "grids; d-spacing against the reciprocal metric tensor, inversion and 1/n scaling, volumes, Bragg's law or an error, and the structure factor "
                      "against the explicit sum over atoms with the library's own atomic factors, additivity, Friedel's law and the forward reflection. For every distinct "
                      "d the energies hc/(2d) +- 6 ulps are evaluated and classified by the exact comparison lambda <=> 2d (theta = pi/2 exists at equality).",
@@ -106,7 +106,7 @@ CHECKS = {
                      "carries the name of a C parameter must stand at its position; Pascal imports must bind the symbol their identifier names; Pascal wrapper bodies, Fortran call "
                      "sites of BIND(C) interfaces and Cython def bodies must forward to their own C function with their own arguments in order; every struct member converted in a SWIG "
                      "out-typemap (Lua, Python, Perl, Ruby, PHP) must use a constructor of its C type; Fortran BIND(C) types and Pascal records list the members of the C structs in the "
-                     "same order with the same kind of type (17 layouts); integer literals are evaluated by the rules of their language (a leading zero is octal in Java).",
+                     "same order with the same kind of type (17 layouts); integer literals are evaluated by the rules of their language (a leading zero is octal in Java); the C glue of the IDL DLM (conversion macros, their instantiations, hand-written wrappers, routine table) is compared with the C prototypes.",
                 note="Non-C bindings are lexed, never compiled (no Fortran/Pascal/Cython/SWIG/IDL toolchain here); reshaped object wrappers (allocatable / dynamic-array copies) are not compared field by field."),
     "C14": dict(level="model_checking", engine="HIST", ref="4/C14",
                 technique="explicit-state BFS over operation histories of the real crystal-collection code (fork per state), to closure, against a dictionary model, repeated under ASan/UBSan",
@@ -115,7 +115,7 @@ CHECKS = {
                      "dictionary model (result, error, sorted duplicate-free content, recomputed volumes, independent copies, built-in collection intact, no live "
                      "blocks after teardown). The core alphabet (21 ops incl. capacity-crossing start states and colliding crystal files) is explored to closure, so "
                      "the result holds for histories of any length over it; a fourth alphabet with atom-less crystals (live atom buffer) and a fifth with additions that are rejected late "
-                     "(the library's own copy cannot be made) and a sixth with 30-character names that share long prefixes are also closed; wider alphabets and "
+                     "(the library's own copy cannot be made) , a sixth with 30-character names that share long prefixes and a seventh with crystal files written in legal but unusual ways are also closed; wider alphabets and "
                      "the built-in collection at its fixed capacity are depth bounded.",
                 note="Finite name and file alphabets; closure is relative to them. ReadFile is read as all-or-nothing. UBSan's nonnull-attribute check is disabled (bsearch on an empty array)."),
     "C15": dict(level="exploration", engine="ENUM", ref="4/C15",
